@@ -370,6 +370,7 @@ func runC08(c *Ctx, r *Report) {
 	runC08Assign(c, r, reg)
 	runC08Is(c, r, rs, reg)
 	c08ShortCircuit(c, r)
+	c08Coalesce(c, r)
 	r.Extra["tables_read"] = len(tabs)
 }
 
